@@ -61,7 +61,7 @@ type tr2 struct {
 }
 
 var leanTypeOfKind = map[string]string{"ents": "List Entry", "omap": "List Entry", "int": "Int", "cids": "List Hash",
-	"set": "List Hash", "smap": "List (Hash × Hash)", "entry": "Entry", "hash": "Hash", "bool": "Bool", "bytes": "Bytes", "key": "Entry", "log": "Unit", "queue": "Q", "optentry": "Option Entry", "chan": "List Entry", "iteropts": "Unit", "appendopts": "Unit", "fetchopts": "Unit"}
+	"set": "List Hash", "smap": "List (Hash × Hash)", "entry": "Entry", "hash": "Hash", "bool": "Bool", "bytes": "Bytes", "key": "Entry", "log": "Unit", "queue": "Q", "optentry": "Option Entry", "chan": "List Entry", "iteropts": "Unit", "appendopts": "Unit", "fetchopts": "Unit", "identity": "Unit"}
 
 func (t *tr2) fail(n ast.Node, why string) string {
 	t.errs = append(t.errs, fmt.Sprintf("%s: %s", why, src(t.fset, n)))
@@ -262,6 +262,9 @@ func (t *tr2) expr(e ast.Expr) (string, string) {
 			if k, ok := t.kinds[id.Name+"."+x.Sel.Name]; ok {
 				return leanName(id.Name + "." + x.Sel.Name), k
 			}
+		}
+		if id, ok := x.X.(*ast.Ident); ok && t.kinds[id.Name] == "identity" && x.Sel.Name == "PublicKey" {
+			return leanName(id.Name) + "PublicKey", "bytes"
 		}
 		if id, ok := x.X.(*ast.Ident); ok && t.kinds[id.Name] == "fetchopts" && x.Sel.Name == "Exclude" {
 			return "optExclude", "ents"
@@ -1125,6 +1128,11 @@ func (t *tr2) block(stmts []ast.Stmt, fall string, inLoop bool) string {
 			}
 		}
 		return t.fail(st, "call statement")
+	case *ast.DeferStmt:
+		if sc := selChain(x.Call.Fun); t.recv != "" && strings.HasPrefix(sc, t.recv+".lock.") {
+			return t.block(rest, fall, inLoop) // the deferred release of the log's lock
+		}
+		return t.fail(st, "defer")
 	case *ast.SendStmt:
 		if src(t.fset, x.Chan) == t.emitter && t.emitter != "" {
 			v, kv := t.expr(x.Value)
@@ -1301,6 +1309,12 @@ func (t *tr2) assign(x *ast.AssignStmt, rest []ast.Stmt, fall string, inLoop boo
 			return "(let " + leanName(mid.Name) + " := (mapSet " + m + " " + k + " " + v + ");\n    " + cont() + ")"
 		}
 		return t.fail(x, "map write")
+	}
+	// l.Identity = identity: which identity signs is not part of the translated state (the clock id is)
+	if sel, isSel := x.Lhs[0].(*ast.SelectorExpr); isSel && x.Tok == token.ASSIGN && src(t.fset, sel) == t.recv+".Identity" && t.recv != "" {
+		if id, ok := x.Rhs[0].(*ast.Ident); ok && t.kinds[id.Name] == "identity" {
+			return cont()
+		}
 	}
 	// l.Clock = entry.NewLamportClock(id, time): the clock is its two components
 	if sel, isSel := x.Lhs[0].(*ast.SelectorExpr); isSel && x.Tok == token.ASSIGN && src(t.fset, sel) == t.recv+".Clock" && t.recv != "" {
@@ -1586,7 +1600,7 @@ func (t *tr2) liveVars() []string {
 	}
 	var vs []string
 	for v, k := range t.kinds {
-		if strings.Contains(v, ".") || isParam[leanName(v)] || leanTypeOfKind[k] == "" || k == "log" || k == "iteropts" || k == "appendopts" || k == "fetchopts" || k == "ctx" || k == "key" {
+		if strings.Contains(v, ".") || isParam[leanName(v)] || leanTypeOfKind[k] == "" || k == "log" || k == "iteropts" || k == "appendopts" || k == "fetchopts" || k == "identity" || k == "ctx" || k == "key" {
 			continue
 		}
 		vs = append(vs, v)
@@ -2543,6 +2557,28 @@ func (t *tr2) fromJSONDecl(f *ast.File) string {
 	return out
 }
 
+// setIdentityDecl: IPFSLog.SetIdentity as a function of the heads, the clock and the new identity's public key,
+// returning the new clock
+func (t *tr2) setIdentityDecl(f *ast.File) string {
+	fd := findMethod(f, "SetIdentity")
+	if fd == nil || fd.Body == nil || fd.Recv == nil || len(fd.Recv.List[0].Names) != 1 || len(fd.Type.Params.List) != 1 || len(fd.Type.Params.List[0].Names) != 1 {
+		return t.fail(&ast.BlockStmt{}, "SetIdentity not found")
+	}
+	t.prepare(fd)
+	r := fd.Recv.List[0].Names[0].Name
+	idn := fd.Type.Params.List[0].Names[0].Name
+	t.kinds = map[string]string{r + ".heads": "omap", r + ".ClockID": "bytes", r + ".ClockTime": "int", idn: "identity"}
+	t.subst = map[string]string{}
+	t.loops, t.helperDefs, t.aliases = nil, nil, nil
+	t.fn, t.recv, t.brk, t.noResult, t.emitter = "setIdentity", r, "", "", ""
+	t.monadic, t.joinN, t.hasFuel, t.usesFuel, t.partial = 0, 0, false, false, false
+	t.retType = "Bytes × Int"
+	t.params = []string{"(lHeads : List Entry)", "(lClockID : Bytes)", "(lClockTime : Int)", "(" + leanName(idn) + "PublicKey : Bytes)"}
+	t.pnames = []string{"lHeads", "lClockID", "lClockTime", leanName(idn) + "PublicKey"}
+	b := strings.Join(strings.Fields(t.block(fd.Body.List, "(lClockID, lClockTime)", false)), " ")
+	return "def setIdentity " + strings.Join(t.params, " ") + " : Bytes × Int :=\n  " + b + "\n"
+}
+
 func findMethod(f *ast.File, name string) *ast.FuncDecl {
 	for _, d := range f.Decls {
 		if fd, ok := d.(*ast.FuncDecl); ok && fd.Name.Name == name && fd.Recv != nil {
@@ -2563,7 +2599,7 @@ func renderSlices(repo string) map[string]string {
 		name string
 		jobs []job
 	}{
-		{"Misc", []job{{"log.go", []string{"maxClockTimeForEntries"}}, {"entry/entry.go", []string{"uniqueCIDs"}}}},
+		{"Misc", []job{{"log.go", []string{"maxClockTimeForEntries", "#setIdentity"}}, {"entry/entry.go", []string{"uniqueCIDs"}}}},
 		{"Loaders", []job{{"entry/utils.go", []string{"Difference"}}, {"log_io.go", []string{"entryLastN", "entryLastNKeeping", "entrySliceRange", "#fromEntry", "#fromJSON"}}}},
 		{"Heads", []job{{"entry/utils.go", []string{"FindHeads"}}}},
 		{"Traverse", []job{{"log.go", []string{"traverse"}}}},
@@ -2601,6 +2637,10 @@ func renderSlices(repo string) map[string]string {
 				}
 				if n == "#fromJSON" {
 					fmt.Fprintf(&b, "/-- `fromJSON` (%s): what is made of the fetched entries -/\n%s\n", j.file, t.fromJSONDecl(f))
+					continue
+				}
+				if n == "#setIdentity" {
+					fmt.Fprintf(&b, "/-- `SetIdentity` (%s): the new clock -/\n%s\n", j.file, t.setIdentityDecl(f))
 					continue
 				}
 				if n == "#admission" {
